@@ -135,7 +135,7 @@ func checkC01(c *Ctx, r *Report) {
 	checkC05(c, tmp5)
 	n5 := 0
 	for _, o := range tmp5.Obls {
-		if o.Rule == "O5-parents" || (o.Rule == "D1+D5" && (strings.Contains(o.Construct, `tag=""`))) {
+		if o.Rule == "O5-parents" || o.Rule == "K2" || o.Rule == "K2b" || o.Rule == "K3" || (o.Rule == "D1+D5" && (strings.Contains(o.Construct, `tag=""`))) {
 			o.Rule = "plan-" + o.Rule
 			r.Obls = append(r.Obls, o)
 			n5++
@@ -247,6 +247,40 @@ func checkPayloadHeaders(c *Ctx, r *Report, pk *Packager, w *ssa.Function, pa *p
 			p, init := fieldProv(mtimeField)
 			ok := p.has("FileInfo.MTime") || (init && h.FromFileInfo)
 			r.Check(ok, "F1", hk+" "+mtimeField, c.instrPos(h.Create), fmt.Sprintf("%s is fed from {%s}; expected the entry's mtime", mtimeField, strings.Join(p.fields(), ",")))
+			// precedence: a regular file's own (declared or defaulted) mtime is
+			// not overridden by the package-wide one
+			if len(classes) == 1 {
+				r.Check(!p.has("Info.MTime"), "F1-mtime", hk+" "+mtimeField+" precedence", c.instrPos(h.Create), "a regular file's header time must come from the entry's mtime alone; the package-wide mtime is only its default (applied by the planner), it must not take precedence in the packager")
+			}
+		}
+		if classes["FILE"] && len(classes) > 1 {
+			// one header builder for several kinds: the call that builds the
+			// header of a regular file (from the function that opens the
+			// source) must not be handed the package-wide mtime
+			for _, cs := range pa.callSites(h.Fn) {
+				caller := cs.Parent()
+				opens := false
+				forEachInstr(caller, func(in ssa.Instruction) {
+					if call, ok := in.(*ssa.Call); ok {
+						if o := calleeObj(call); o != nil {
+							switch qualifiedName(o) {
+							case "os.Open", "os.OpenFile", "os.ReadFile":
+								opens = true
+							}
+						}
+					}
+				})
+				if !opens {
+					continue
+				}
+				bad := false
+				for _, a := range cs.Common().Args {
+					if pa.Of(a).has("Info.MTime") {
+						bad = true
+					}
+				}
+				r.Check(!bad, "F1-mtime", hk+" "+mtimeField+" precedence at the regular-file call site in "+c.funcKey(caller), c.instrPos(cs), "the header of a regular file must be built from the entry's own mtime; passing the package-wide mtime here lets it override a per-entry mtime")
+			}
 		}
 		if classes["LINK"] {
 			switch {
